@@ -153,10 +153,10 @@ func builtinStringLastIndexOf(call FunctionCall) Value {
 	}
 	// The position counts UTF-16 code units, value holds UTF-8 bytes.
 	length := utf16Length(value)
+	start := call.ArgumentList[1].number()
 	if length == 0 {
 		return intValue(lastIndexRune(value, target))
 	}
-	start := call.ArgumentList[1].number()
 	if (start.kind == numberInfinity && start.float64 > 0) || start.kind == numberNaN {
 		// startNumber is +infinity or NaN, so start is the end of string (start = length)
 		return intValue(lastIndexRune(value, target))
